@@ -16,24 +16,34 @@ from sim.core import Check, Result, jdigest
 SAMPLERS = ["uniform", "halton", "rseq", "pso"]
 
 
-def ref_stop(script, batch_sizes, precision, calls, start_rows=0):
-    """-> list per call of (batches run, rows after, batch index after)"""
+def ref_stop(script, batch_sizes, precision, ops, start_rows=0):
+    """-> list per op of (batches run, rows after, batch index after, raised?).  ops: ["calibrate", n] or
+    ["calibrate_fault_update", n, k] (the scheduler hook raises at its k-th call: that batch is in the history and in the
+    running minimum, but neither the batch index nor the round-robin position move, and the call ends with the exception)"""
     rows = start_rows
     bidx = 0
+    pos = 0
     out = []
     best = np.inf
-    for n in calls:
+    for op in ops:
+        n = op[1]
+        fault_at = op[2] if op[0] == "calibrate_fault_update" else None
         ran = 0
-        for _ in range(n):
-            bs = batch_sizes[bidx % len(batch_sizes)]
+        raised = False
+        for b in range(n):
+            bs = batch_sizes[pos % len(batch_sizes)]
             vals = [abs(script[min(rows + j, len(script) - 1)]) for j in range(bs)]
             best = min(best, *vals)
             rows += bs
+            if fault_at is not None and b == fault_at:
+                raised = True
+                break
             bidx += 1
+            pos += 1
             ran += 1
             if precision is not None and np.round(best, precision) == 0:
                 break
-        out.append((ran, rows, bidx))
+        out.append((ran, rows, bidx, raised))
     return out
 
 
@@ -91,8 +101,11 @@ class C14(Check):
                "N": 1, "sim_length": None, "real_seed": 0, "ensemble": E, "cal_seed": rng.randrange(2 ** 31),
                "convergence_precision": prec, "script": script, "script_per": E}
         env = {"verbose": rng.random() < 0.5, "folder": rng.random() < 0.5}
-        return {"engine": "calsim", "config": cfg, "env": env, "ops": [["calibrate", n] for n in calls],
-                "sim_seed": rng.randrange(2 ** 31)}
+        ops = [["calibrate", n] for n in calls]
+        if len(ops) > 1 and rng.random() < 0.15:
+            k = rng.randrange(0, len(ops) - 1)
+            ops[k] = ["calibrate_fault_update", ops[k][1], rng.randrange(ops[k][1])]     # the scheduler hook raises once; the caller goes on
+        return {"engine": "calsim", "config": cfg, "env": env, "ops": ops, "sim_seed": rng.randrange(2 ** 31)}
 
     def run(self, scn):
         res = Result()
@@ -100,17 +113,55 @@ class C14(Check):
         sim = C14Sim(scn).run()
         twin = C14Sim(scn, env={"verbose": not sim.env["verbose"]}).run()
         calls = [op[1] for op in scn["ops"]]
-        want = ref_stop(cfg["script"], [s["batch_size"] for s in cfg["lineup"]], cfg["convergence_precision"], calls)
-        early = []
-        for k, (r, (ran, rows, bidx)) in enumerate(zip(sim.op_results, want)):
+        prec = cfg["convergence_precision"]
+        script = [abs(v) for v in cfg["script"]]
+        # batch sizes are taken from what the sampler seam observed (who is scheduled is C09's business, not this property's)
+        sizes = [len(b.returned) for b in sim.batches if b.returned is not None]
+        si = rows = bidx = 0
+        best = np.inf
+        early, want = [], []
+        for k, (op, r) in enumerate(zip(scn["ops"], sim.op_results)):
+            n = op[1]
+            fault_at = op[2] if op[0] == "calibrate_fault_update" else None
+            ran, raised = 0, False
+            for b in range(n):
+                if si >= len(sizes):
+                    break
+                bs = sizes[si]
+                si += 1
+                best = min([best] + [script[min(rows + j, len(script) - 1)] for j in range(bs)])
+                rows += bs
+                if fault_at is not None and b == fault_at:
+                    raised = True
+                    break
+                bidx += 1
+                ran += 1
+                if prec is not None and np.round(best, prec) == 0:
+                    break
+            want.append((ran, rows, bidx, raised))
+            snap = r["snap"]
+            if raised:
+                res.stats["raise@scheduler-update"] += 1
+                if not r["exc"] or r["exc"][0] != "InjectedFault":
+                    res.add("update-fault-not-propagated", "scheduler-hook", f"call {k}: the scheduler hook raised but calibrate() {'returned' if not r['exc'] else 'raised ' + str(r['exc'])}")
+                    break
+                lens = {len(snap[a]) for a in ("params", "losses", "series", "batch_num", "method")}
+                if lens != {snap["n"]}:
+                    res.add("counter-disagrees-with-history", "after-hook-fault",
+                            f"call {k}: after the scheduler hook raised the per-sample records have lengths {sorted(lens)} and the sample counter is {snap['n']}")
+                    break
+                # whether the batch whose hook failed is kept or not is not this property's business: go on from what is there
+                rows, bidx = snap["n"], snap["batch_index"]
+                best = min([np.inf] + script[:rows]) if rows <= len(script) else best
+                early.append(False)
+                continue
             if r["exc"]:
                 res.add("raised", r["exc"][0], f"calibrate call {k} raised {r['exc']}")
                 break
-            snap = r["snap"]
             # harness sanity: the losses are the script
             m = len(snap["losses"])
-            exp_losses = np.abs(np.array(cfg["script"][:m]))
-            if m <= len(cfg["script"]) and not np.array_equal(snap["losses"], exp_losses):
+            exp_losses = np.array(script[:m])
+            if m <= len(script) and not np.array_equal(snap["losses"], exp_losses):
                 raise RuntimeError(f"harness: losses are not the script: {snap['losses'].tolist()} vs {exp_losses.tolist()}")
             if m != snap["n"]:
                 res.add("counter-disagrees-with-history", "n_sampled_params", f"call {k}: {m} losses recorded but the sample counter is {snap['n']}")
@@ -118,7 +169,7 @@ class C14(Check):
             if snap["batch_index"] != bidx or snap["n"] != rows:
                 kind = "stopped-too-early" if snap["batch_index"] < bidx else "did-not-stop"
                 res.add(kind, "verbose" if sim.env["verbose"] else "quiet",
-                        f"calibrate call {k} (n={calls[k]}, precision={cfg['convergence_precision']}, verbose={sim.env['verbose']}): batch index "
+                        f"calibrate call {k} (n={calls[k]}, precision={prec}, verbose={sim.env['verbose']}): batch index "
                         f"{snap['batch_index']} / {snap['n']} rows, reference stop model says {bidx} / {rows}; losses {snap['losses'].tolist()[:14]}")
                 break
             if len(r["ret"][1]) != rows:
@@ -142,11 +193,11 @@ class C14(Check):
                 break
         if any(early):
             res.stats["probe:stopped-early"] += 1
-            if want[0][0] == 1 and early[0]:
+            if want[0][0] == 1 and early and early[0]:
                 res.stats["probe:convergence-on-first-batch"] += 1
             if len(early) > 1 and any(early[1:]):
                 res.stats["probe:later-call-stops-after-one-batch"] += 1
-            res.key = jdigest([cfg["convergence_precision"], [w[0] for w in want], sim.env["folder"], [s["batch_size"] for s in cfg["lineup"]]])
+            res.key = jdigest([cfg["convergence_precision"], [(w[0], w[3]) for w in want], sim.env["folder"], [s["batch_size"] for s in cfg["lineup"]]])
         res.stats["calibrate-calls"] += len(calls)
         res.digest = jdigest([sim.digest(), twin.digest()])
         res.sample = {"precision": cfg["convergence_precision"], "script": cfg["script"][:12], "lineup": [(s["cls"], s["batch_size"]) for s in cfg["lineup"]],
